@@ -60,7 +60,14 @@ func CompareWithBrute(g *rg.G) string {
 	if fmt.Sprint(all) != fmt.Sprint(bb) {
 		return fmt.Sprintf("Blocks: separation %v vs common-cycle %v", all, bb)
 	}
+	bf, isof := BlocksFast(g)
+	if fmt.Sprint(bf) != fmt.Sprint(bl) || !eq(isof, iso) {
+		return fmt.Sprintf("Blocks: pairwise separation %v vs adjacent-edge closure %v", bl, bf)
+	}
 	c1, _ := Cycles(g, big())
+	if cb, _ := CountsByBlocks(g, bl, Cycles, big()); !eq(c1, cb) {
+		return fmt.Sprintf("Cycles: whole graph %v vs summed over blocks %v", c1, cb)
+	}
 	c2, _ := b.Cycles()
 	if !eq(c1, c2) {
 		return fmt.Sprintf("Cycles: %v vs brute %v", c1, c2)
@@ -69,6 +76,9 @@ func CompareWithBrute(g *rg.G) string {
 		return fmt.Sprintf("Girth: edge-deletion %d vs enumeration %d", g1, g2)
 	}
 	i1, _ := InducedCycles(g, big())
+	if ib, _ := CountsByBlocks(g, bl, InducedCycles, big()); !eq(i1, ib) {
+		return fmt.Sprintf("InducedCycles: whole graph %v vs summed over blocks %v", i1, ib)
+	}
 	if i2 := b.InducedCycles(); !eq(i1, i2) {
 		return fmt.Sprintf("InducedCycles: %v vs brute %v", i1, i2)
 	}
@@ -226,6 +236,9 @@ func init() {
 		for i := 0; i < 300; i++ {
 			n := 2 + r.Intn(29)
 			b := BuildBlockTree(r, n, Mode(i%3), 1+r.Intn(3), r.Intn(3), r.Float()*0.6, r.Float()*0.6)
+			if bf, _ := BlocksFast(b.G); fmt.Sprint(bf) != fmt.Sprint(b.Blocks) {
+				return fmt.Errorf("%s: built blocks %v, adjacent-edge closure %v", b.G.G6(), b.Blocks, bf)
+			}
 			bl, iso := Blocks(b.G)
 			if fmt.Sprint(bl) != fmt.Sprint(b.Blocks) || !eq(iso, b.Isolated) {
 				return fmt.Errorf("%s: built blocks %v iso %v, separation oracle %v iso %v", b.G.G6(), b.Blocks, b.Isolated, bl, iso)
